@@ -73,8 +73,7 @@ def _assess_table(ck, repo, nf):
     model.derive(m1.single_atom(), "min", c1, 0, 1)
     model.cluster([e1, old[M]])
     model.cluster([env0[EPOCH], env0[SBC], env0[EPOCH] + t1], constraint=lambda r: r[0] < r[2])      # window steps > 0
-    model.cluster([Poly.const(0), Poly.const(1), t1], constraint=lambda r: r[0] < r[1] <= r[2])         # window steps >= 1
-    model.cluster([Poly.const(0), Poly.const(1), env0[SPE]], constraint=lambda r: r[0] < r[1] <= r[2])  # an episode has at least one step
+    model.cluster([Poly.const(0), Poly.const(1), env0[SPE], t1], constraint=lambda r: r[0] < r[1] <= r[2] <= r[3])   # 1 <= episode steps <= window steps
     CUT = ("cmp", "lt", m1, old[BEST])
     FULLEQ = ("cmp", "eq", e1, old[M])
     SWC = ("and", (("cmp", "lt", env0[EPOCH], env0[SBC]), ("not", ("cmp", "lt", env0[EPOCH] + t1, env0[SBC]))))
